@@ -165,13 +165,13 @@ def labeled_prefix_bytes(prog, rep, bind, alen, maxlen):
         rep.ok('R07.b', key, file=f.file, line=f.node.lineno, found='%d lengths, %d paths' % (maxlen + 1, n))
 
 
-def operator_octet(prog, rep, clsq):
+def operator_octet(prog, rep, clsq, rule='R07.h', decode=True):
     short = clsq.rsplit('.', 1)[-1]
     fp = prog.func(clsq + '.parse_operator_flag')
     key = 'operator-decode:%s' % short
     bad = None
     n = 0
-    for d in range(256):
+    for d in (range(256) if decode else ()):
         want = {'EOL': (d >> 7) & 1, 'AND': (d >> 6) & 1, 'LEN': 1 << ((d >> 4) & 3), 'LT': (d >> 2) & 1,
                 'GT': (d >> 1) & 1, 'EQ': d & 1}
         _f, outs = codec.run(prog, fp.qualname, [Const(d)], {}, may_raise=False)
@@ -185,12 +185,14 @@ def operator_octet(prog, rep, clsq):
             if diff and not bad:
                 bad = 'octet 0x%02x decodes to %s, RFC 5575: %s' % (
                     d, {a: got.get(a) for a in diff}, {a: want[a] for a in diff})
-    if bad:
-        rep.bad('R07.h', key, file=fp.file, line=fp.node.lineno, func=fp.qualname, found=bad, key=key)
+    if not decode:
+        pass
+    elif bad:
+        rep.bad(rule, key, file=fp.file, line=fp.node.lineno, func=fp.qualname, found=bad, key=key)
     elif n >= 256:
-        rep.ok('R07.h', key, file=fp.file, line=fp.node.lineno, found='256 octets')
+        rep.ok(rule, key, file=fp.file, line=fp.node.lineno, found='256 octets')
     else:
-        rep.undecided('R07.h', key, file=fp.file, line=fp.node.lineno, found='only %d octets evaluated' % n)
+        rep.undecided(rule, key, file=fp.file, line=fp.node.lineno, found='only %d octets evaluated' % n)
     # the operand handed to the operator octet has at least one octet: construct_operator_flag maps a length of 0
     # to code 0 (= 1 octet) without complaint, so an empty operand would be announced as one octet that is not there
     fo = prog.func(clsq + '.construct_operators')
@@ -199,7 +201,7 @@ def operator_octet(prog, rep, clsq):
             and src_of(n.targets[0].slice) in ("'LEN'", '"LEN"') and isinstance(n.value, ast.Call)
             and src_of(n.value.func) == 'len' and n.value.args and isinstance(n.value.args[0], ast.Name)]
     if not lens:
-        rep.undecided('R07.h', key, file=fo.file, line=fo.node.lineno, found="no flag['LEN'] = len(<operand>) found")
+        rep.undecided(rule, key, file=fo.file, line=fo.node.lineno, found="no flag['LEN'] = len(<operand>) found")
     else:
         var = lens[0].value.args[0].id
         shrink = None
@@ -212,12 +214,12 @@ def operator_octet(prog, rep, clsq):
                     if isinstance(c, ast.Subscript) and isinstance(c.slice, ast.Slice):
                         shrink = c
         if shrink is not None:
-            rep.bad('R07.h', key, file=fo.file, line=shrink.lineno, func=fo.qualname,
+            rep.bad(rule, key, file=fo.file, line=shrink.lineno, func=fo.qualname,
                     found='the operand bytes are produced by %s, which is empty for the operand 0: the operator octet '
                           'then announces one value octet and none follows' % src_of(shrink)[:70],
                     expected='an operand of at least one octet for every value', key=key)
         else:
-            rep.ok('R07.h', key, file=fo.file, line=lens[0].lineno, found='operand %s' % var)
+            rep.ok(rule, key, file=fo.file, line=lens[0].lineno, found='operand %s' % var)
     fc = prog.func(clsq + '.construct_operator_flag')
     for ln in range(1, 9):
         key = 'operator-encode:%s:len=%d' % (short, ln)
@@ -249,11 +251,136 @@ def operator_octet(prog, rep, clsq):
                 elif v.value != (want | (code << 4)):
                     bad = bad or '%s is encoded as 0x%02x, RFC 5575: 0x%02x' % (items, v.value, want | (code << 4))
         if bad:
-            rep.bad('R07.h', key, file=fc.file, line=fc.node.lineno, func=fc.qualname, found=bad, key=key)
+            rep.bad(rule, key, file=fc.file, line=fc.node.lineno, func=fc.qualname, found=bad, key=key)
         elif n:
-            rep.ok('R07.h', key, file=fc.file, line=fc.node.lineno, found='%d flag combinations' % n)
+            rep.ok(rule, key, file=fc.file, line=fc.node.lineno, found='%d flag combinations' % n)
         else:
-            rep.ok('R07.h', key, file=fc.file, line=fc.node.lineno, found='length refused (raises)', nontrivial=False)
+            rep.ok(rule, key, file=fc.file, line=fc.node.lineno, found='length refused (raises)', nontrivial=False)
+
+
+FS = 'yabgp.message.attribute.nlri.ipv4_flowspec.IPv4FlowSpec'
+
+
+def _type_sets(prog, fn, tests_on):
+    """[(set of ints or None (= everything else), body)] for an if/elif chain testing `tests_on`."""
+    out = []
+
+    def chain(node):
+        t = common.unalias(fn.node, node.test, as_node=True) if False else node.test
+        vals = None
+        if isinstance(t, ast.Compare) and len(t.ops) == 1 and src_of(t.left) == tests_on:
+            try:
+                v = prog.fold(t.comparators[0], fn.module, fn.cls)
+            except Exception:
+                v = None
+            if isinstance(t.ops[0], ast.In) and isinstance(v, (list, tuple, set, frozenset, dict)):
+                vals = set(v)
+            elif isinstance(t.ops[0], ast.Eq) and isinstance(v, int):
+                vals = {v}
+        if vals is None:
+            return False
+        out.append((vals, node.body))
+        if len(node.orelse) == 1 and isinstance(node.orelse[0], ast.If):
+            if not chain(node.orelse[0]):
+                out.append((None, node.orelse))
+        elif node.orelse:
+            out.append((None, node.orelse))
+        return True
+    for n in ast.walk(fn.node):
+        if isinstance(n, ast.If) and not out:
+            chain(n)
+    return out
+
+
+def flowspec_component_types(prog, rep):
+    """R07.m: every component type 1..11 the flowspec decoder stores in its result is written back by
+    construct_nlri (a type the encoder does not iterate over is dropped without any error)."""
+    fp = prog.func(FS + '.parse')
+    fc = prog.func(FS + '.construct_nlri')
+    # decoder: which types end up as a key of the returned dict
+    tvar = None
+    for n in ast.walk(fp.node):
+        if isinstance(n, ast.Assign) and isinstance(n.targets[0], ast.Subscript) and \
+                isinstance(n.targets[0].slice, ast.Name):
+            tvar = n.targets[0].slice.id
+            break
+    chain = _type_sets(prog, fp, tvar) if tvar else []
+
+    def stores(body):
+        return any(isinstance(n, ast.Assign) and isinstance(n.targets[0], ast.Subscript) and
+                   src_of(n.targets[0].slice) == tvar for b in body for n in ast.walk(b))
+    dec = set()
+    if chain:
+        for t in range(1, 12):
+            for vals, body in chain:
+                if vals is None or t in vals:
+                    if stores(body):
+                        dec.add(t)
+                    break
+    else:
+        # a single unconditional store (table-driven decoder): every type is stored
+        for n in ast.walk(fp.node):
+            if isinstance(n, ast.While) and stores(n.body):
+                dec = set(range(1, 12))
+    # encoder: the types iterated over / looked up with a write of the type octet
+    enc = set()
+    loops = 0
+    for n in ast.walk(fc.node):
+        if isinstance(n, ast.For) and isinstance(n.target, ast.Name):
+            try:
+                it = prog.fold(common.unalias(fc.node, n.iter, as_node=True) or n.iter, fc.module, fc.cls)
+            except Exception:
+                try:
+                    it = prog.fold(n.iter, fc.module, fc.cls)
+                except Exception:
+                    continue
+            if not isinstance(it, (list, tuple, set, frozenset, dict)) or not all(isinstance(x, int) for x in it):
+                continue
+            writes = any(isinstance(m, (ast.AugAssign, ast.Assign)) and
+                         any(isinstance(q, ast.Name) and q.id == n.target.id for q in ast.walk(m.value))
+                         for b in n.body for m in ast.walk(b))
+            if writes:
+                loops += 1
+                enc |= set(it)
+    if not dec or not loops:
+        rep.undecided('R07.m', 'flowspec-component-types', file=fc.file, line=fc.node.lineno,
+                      found='decoder stores %s, encoder loops recognised: %d' % (sorted(dec), loops))
+        return
+    n_ok = 0
+    for t in sorted(dec):
+        key = 'flowspec-component:%d' % t
+        if t in enc:
+            n_ok += 1
+            rep.ok('R07.m', key, file=fc.file, line=fc.node.lineno, found='decoded and re-encoded')
+        else:
+            rep.bad('R07.m', key, file=fc.file, line=fc.node.lineno, func=fc.qualname,
+                    found='flowspec component type %d is decoded into the rule by %s but construct_nlri never '
+                          'writes it: the component is dropped from the re-encoded rule without any error '
+                          '(encoder handles %s)' % (t, fp.qualname, sorted(enc)),
+                    expected='every decoded component type is written back, or refused loudly', key=key)
+    rep.floor('R07.m', 'flowspec component types decoded', len(dec), 11)
+
+
+def stateless_codecs(prog, rep):
+    """R07.n: the NLRI codecs keep nothing between calls - no write to module, class or configuration state
+    (one decoded value must not depend on the values decoded before it)."""
+    from .c10 import shared_state_writes
+    sel = lambda f: f.module.name.startswith(('yabgp.message.attribute.nlri', 'yabgp.message.attribute.mpreachnlri',
+                                              'yabgp.message.attribute.mpunreachnlri'))
+    nfun, hits = shared_state_writes(prog, sel)
+    seen = set()
+    for f, node, desc in hits:
+        key = 'state-write:%s:%s' % (f.qualname.split('yabgp.message.attribute.')[-1], desc.split(' ')[0][:60])
+        if key in seen:
+            continue
+        seen.add(key)
+        rep.bad('R07.n', key, file=f.file, line=node.lineno, func=f.qualname,
+                found='%s: an NLRI codec writes state that outlives the call (%s), so one value\'s round trip '
+                      'depends on what was encoded or decoded before it' % (f.qualname, desc),
+                expected='codecs are pure functions of their argument', key=key)
+    if not hits:
+        rep.ok('R07.n', 'nlri-codecs-stateless', found='%d functions, none writes shared state' % nfun)
+    rep.floor('R07.n', 'NLRI codec functions scanned', nfun, 60)
 
 
 def check(prog, rep, tier):
@@ -276,6 +403,11 @@ def check(prog, rep, tier):
                       'yields every key its sibling encoder reads unconditionally')
     rep.rule('R07.k', 'IPv6 unicast MP_REACH next hop: the link-local part is reported exactly when the next-hop '
                       'length is 32, independent of the address values')
+    rep.rule('R07.m', 'flowspec component types: every component type 1..11 that IPv4FlowSpec.parse stores in the rule '
+                      'is written back by construct_nlri (a type the encoder does not iterate over is dropped from '
+                      'the re-encoded rule without any error)')
+    rep.rule('R07.n', 'NLRI codecs are stateless: no function of the NLRI / MP_REACH / MP_UNREACH codecs writes module, '
+                      'class or configuration state, so a value\'s round trip never depends on earlier calls')
     rep.rule('R07.l', 'unsigned wire: no signed struct code in any format string of the NLRI / MP codecs')
     rep.assumptions += ['value equality of the round trip is not decided',
                         'a MAC address has six groups (b"".join of one octet per group is 6 octets)']
@@ -585,6 +717,12 @@ def check(prog, rep, tier):
     for fsq in ('yabgp.message.attribute.nlri.ipv4_flowspec.IPv4FlowSpec',
                 'yabgp.message.attribute.nlri.ipv6_flowspec.IPv6FlowSpec'):
         operator_octet(prog, rep, fsq)
+
+    # ---------------------------------------------------------------- R07.m
+    flowspec_component_types(prog, rep)
+
+    # ---------------------------------------------------------------- R07.n
+    stateless_codecs(prog, rep)
 
     # ---------------------------------------------------------------- R07.d
     def const_compares(qual, var):
